@@ -40,6 +40,9 @@ def concrete(mod, fn_name, sel, args):
 
 def main():
     case = json.load(open(sys.argv[1]))
+    from vlib import h as _h
+
+    case["args"] = _h.decode_args(case["args"])
     mod = importlib.import_module(case["module"])
     try:
         if hasattr(mod, "replay"):
